@@ -5,6 +5,7 @@ package main
 import (
 	"fmt"
 	"go/token"
+	"strings"
 
 	"golang.org/x/tools/go/ssa"
 )
@@ -119,6 +120,26 @@ func freshRegistration(ix *ipIndex, v ssa.Value, d int) bool {
 	switch x := stripConv(v).(type) {
 	case *ssa.Alloc:
 		return x.Heap
+	case *ssa.Call:
+		// a constructor of the package all of whose returns are fresh heap allocations
+		sc := x.Common().StaticCallee()
+		if sc == nil || d > 3 {
+			return false
+		}
+		if o := sc.Origin(); o != nil {
+			sc = o
+		}
+		if !ix.p.InScope(sc) || len(sc.Blocks) == 0 {
+			return false
+		}
+		n := 0
+		for _, ret := range returnsOf(sc) {
+			if len(ret.Results) != 1 || !freshRegistration(ix, ret.Results[0], d+1) {
+				return false
+			}
+			n++
+		}
+		return n > 0
 	case *ssa.Parameter:
 		args := ix.argFor(x)
 		if len(args) == 0 || d > 3 {
@@ -226,7 +247,17 @@ func checkRegistryEdits(c *Ctx, p *Prog, R *BusRoles, rule string) {
 				_, isLk := R.isRegistryLookup(L)
 				c.Check(isLk, rule, name+"/order-preserving-removal", pos, why+" on the looked-up list", "the removal is applied to a list other than the registry lookup")
 				cond, onTrue := guardingCond(a.HomeIn.Block())
-				okIdx := cond != nil && onTrue && condMentionsElement(cond, L, idx)
+				// the element matched: `x == h` taken true, or `x != h` taken false (continue-style)
+				matchedArm := onTrue
+				if cs, pol := condStrip(cond); cond != nil {
+					if bo, isBo := cs.(*ssa.BinOp); isBo && bo.Op == token.NEQ {
+						matchedArm = !onTrue
+					}
+					if !pol {
+						matchedArm = !matchedArm
+					}
+				}
+				okIdx := cond != nil && matchedArm && condMentionsElement(cond, L, idx)
 				if !okIdx {
 					okIdx = indexFoundBySearch(idx, L, R)
 				}
@@ -348,22 +379,39 @@ func checkRegistryEdits(c *Ctx, p *Prog, R *BusRoles, rule string) {
 			v := ret.Results[0]
 			// through a named-result cell?
 			v = loadThroughLocal(v)
-			var lenCall *ssa.Call
-			if name == "HasHandlers" {
-				bo, ok := v.(*ssa.BinOp)
-				if ok && (bo.Op == token.GTR || bo.Op == token.NEQ) && isConstInt(bo.Y, 0) {
-					lenCall, _ = bo.X.(*ssa.Call)
+			// len(registry[k]) directly, or through helpers of the package that return it
+			var isCount func(v ssa.Value, d int) bool
+			isCount = func(v ssa.Value, d int) bool {
+				v = loadThroughLocal(stripConv(v))
+				call, ok := v.(*ssa.Call)
+				if !ok || d > 3 {
+					return false
 				}
-			} else {
-				lenCall, _ = v.(*ssa.Call)
-			}
-			good := false
-			if lenCall != nil {
-				if bi, ok := lenCall.Common().Value.(*ssa.Builtin); ok && bi.Name() == "len" {
-					if _, ok := R.isRegistryLookup(lenCall.Common().Args[0]); ok {
-						good = true
+				if bi, ok := call.Common().Value.(*ssa.Builtin); ok {
+					if bi.Name() != "len" {
+						return false
+					}
+					_, isLk := R.isRegistryLookup(call.Common().Args[0])
+					return isLk
+				}
+				rs := ix.Returned(call, 0)
+				if len(rs) == 0 {
+					return false
+				}
+				for _, r := range rs {
+					if !isCount(r, d+1) {
+						return false
 					}
 				}
+				return true
+			}
+			good := false
+			if name == "HasHandlers" {
+				if bo, ok := v.(*ssa.BinOp); ok && (bo.Op == token.GTR || bo.Op == token.NEQ) && isConstInt(bo.Y, 0) {
+					good = isCount(bo.X, 0)
+				}
+			} else {
+				good = isCount(v, 0)
 			}
 			if !good && len(b.Preds) > 0 {
 				okAll = false
@@ -408,7 +456,9 @@ type unsubRule struct {
 }
 
 func (r *unsubRule) Inline(fn *ssa.Function) bool { return false }
-func (r *unsubRule) PredOK(string) bool            { return false }
+
+// boolean flags (`removed`) and results of helpers are followed along the path
+func (r *unsubRule) PredOK(k string) bool { return strings.HasPrefix(k, "v:") }
 func (r *unsubRule) OnInstr(e *Engine, st *State, fc *FrameCtx, in ssa.Instruction) bool {
 	u, res := st.Sigma[0], st.Sigma[1]
 	switch x := in.(type) {
